@@ -4,7 +4,8 @@
 From Coq Require Import ZArith String.
 Require Import Base M_Slice P_Slice.
 
-(* For every world (= every segmentation of the running stack into nested greenlets, any frames
+(* wf w = all frames are pairwise distinct objects (nothing else).
+   For every world (= every segmentation of the running stack into nested greenlets, any frames
    of stackscope's own between the API and get_true_caller), every outer/inner in the true stack
    or None with outer not inward of inner, every limit >= 1 or None: extract(StackSlice(...))
    yields exactly the contiguous sub-list outer..inner of the flattened true stack; a limit
@@ -48,21 +49,36 @@ Theorem C04_until_int_limit : forall w i lim,
 Proof. exact until_int_limit. Qed.
 Print Assumptions C04_until_int_limit.
 
-(* extract_until(inner, limit=frame).  Full statement intended by the design:
-     forall w i lim, wf w -> true_caller w <> None -> In i (true_stack w) ->
-       In lim (chain_from w i) -> run_api w (AUntilF i lim) = AOk (SFrames (between (Some lim) (Some i) (true_stack w)))
-   Proved here with the two extra hypotheses that lim is an anchor of the true stack not inward
-   of i (they follow from reachability by f_back; that implication is not proved). *)
-Theorem C04_until_frame_limit_partial : forall w i lim,
-  wf w -> true_caller w <> None ->
-  In i (true_stack w) -> In lim (true_stack w) -> In i (from_anchor lim (true_stack w)) ->
+(* extract_until(inner, limit=frame): a limit reachable from inner by f_back is in the true
+   stack, not inward of inner, and the result is the slice limit..inner; otherwise it raises *)
+Theorem C04_until_frame_limit : forall w i lim,
+  wf w -> true_caller w <> None -> In i (true_stack w) ->
   (In lim (chain_from w i) ->
-     run_api w (AUntilF i lim) = AOk (SFrames (between (Some lim) (Some i) (true_stack w))))
+     run_api w (AUntilF i lim) = AOk (SFrames (between (Some lim) (Some i) (true_stack w)))
+     /\ In lim (true_stack w) /\ In i (from_anchor lim (true_stack w)))
   /\ (~ In lim (chain_from w i) -> run_api w (AUntilF i lim) = ARaised).
-Proof. exact until_frame_limit_partial. Qed.
-Print Assumptions C04_until_frame_limit_partial.
+Proof. exact until_frame_limit. Qed.
+Print Assumptions C04_until_frame_limit.
 
-(* the hypotheses are met by a non-trivial world (three nested greenlets) *)
+(* outer on another thread's stack (first such thread in sys._current_frames() order), no
+   inner: that thread's frames from outer inward; a limit keeps the frames nearest outer *)
+Theorem C04_other_thread_outer : forall w o lim pre ch post,
+  wf w -> true_caller w <> None ->
+  w_threads w = pre ++ (false, ch) :: post ->
+  (forall me c, In (me, c) pre -> me = true \/ ~ In o c) ->
+  In o ch -> ~ In o (thread_frames w) -> limit_ok lim ->
+  unwrap_stackslice w {| s_outer := Some o; s_inner := None; s_limit := lim |}
+  = SFrames (keep_limit lim (Some o) None (from_anchor o (rev ch))).
+Proof. exact other_thread_outer. Qed.
+Print Assumptions C04_other_thread_outer.
+
+Theorem C04_other_thread_example :
+  wf w_thr /\ unwrap_stackslice w_thr {| s_outer := Some 10; s_inner := None; s_limit := Some 2%Z |}
+              = SFrames [10; 11].
+Proof. exact w_thr_ok. Qed.
+Print Assumptions C04_other_thread_example.
+
+(* the hypotheses are met by a non-trivial world (nested greenlets, one parent never started) *)
 Theorem C04_hypotheses_satisfiable :
   wf w_ex /\ true_caller w_ex = Some 7 /\ anchor_ok w_ex (Some 1) /\ anchor_ok w_ex (Some 6)
   /\ ordered w_ex (Some 1) (Some 6) /\ limit_ok (Some 2%Z)
@@ -70,15 +86,3 @@ Theorem C04_hypotheses_satisfiable :
 Proof. exact w_ex_ok. Qed.
 Print Assumptions C04_hypotheses_satisfiable.
 
-(* recorded deviations outside the hypotheses (see harness/c04.py CONFIG.explanation) *)
-Theorem C04_F13_refuted :
-  unwrap_stackslice w13 {| s_outer := Some 10; s_inner := None; s_limit := Some 1%Z |} = SFrames [12]
-  /\ keep_limit (Some 1%Z) (Some 10) None (between (Some 10) None [10; 11; 12]) = [10].
-Proof. exact F13_refuted. Qed.
-Print Assumptions C04_F13_refuted.
-
-Theorem C04_F14_refuted :
-  run_api w14 (ASince None) = AOk (SFrames [2; 3]) /\ true_stack w14 = [0; 1; 2; 3]
-  /\ NoDup (concat (all_chains w14)) /\ ~ wf w14.
-Proof. exact F14_refuted. Qed.
-Print Assumptions C04_F14_refuted.
